@@ -357,4 +357,147 @@ theorem producer_inside_slot_refused :
     getMomentumProducer ⟨0, 10, 3⟩ (fun _ => some [[1], [2], [3]]) (15 * nsPerSec) = .error .noSlotStartsHere ∧
     getMomentumProducer ⟨0, 10, 3⟩ (fun _ => some [[1], [2], [3]]) (10 * nsPerSec) = .ok [2] := by decide
 
+/-! ## e. momentum verifier -/
+
+/-- the generated check order is the one the statement needs (a removed / reordered check breaks this) -/
+theorem verifier_check_order :
+    Gen.MV_Momentum_calls = ["getContext", "all"] ∧
+    Gen.MV_raw_all = ["chainIdentifier", "version", "timestamp", "previous", "data", "content"] ∧
+    Gen.MV_MomentumTransaction_calls = ["all"] ∧
+    Gen.MV_tx_all = ["changesHash", "hash", "signature", "producer"] ∧
+    Gen.SV_ApplyMomentum_calls = ["Momentum", "newMomentumContext", "NewMomentumVM", "applyMomentum", "packMomentum"] ∧
+    "MomentumTransaction" ∈ Gen.SV_packMomentum_calls := by decide
+
+/-- each check rejects with the errors, and under the conditions, the model assumes (AST of the check bodies) -/
+theorem verifier_check_bodies :
+    Gen.MV_if_getContext = ["momentum.Height == 1", "momentum.PreviousHash.IsZero()", "momentumStore == nil"] ∧
+    Gen.MV_ret_getContext = ["ErrMNotGenesis", "ErrMPrevHashMissing", "ErrMPreviousMissing", "nil"] ∧
+    Gen.MV_if_chainIdentifier = ["rmv.momentum.ChainIdentifier == 0",
+      "rmv.momentum.ChainIdentifier != rmv.momentumStore.ChainIdentifier()"] ∧
+    Gen.MV_ret_chainIdentifier = ["ErrABChainIdentifierMissing", "ErrABChainIdentifierMismatch", "nil"] ∧
+    Gen.MV_if_version = ["rmv.momentum.Version == 0", "rmv.momentum.Version != 1"] ∧
+    Gen.MV_ret_version = ["ErrMVersionMissing", "ErrMVersionInvalid", "nil"] ∧
+    Gen.MV_if_timestamp = ["rmv.momentum.Timestamp.Unix() == 0",
+      "rmv.momentum.Timestamp.After(time.Now().Add(time.Second * 10))", "err != nil",
+      "previous.TimestampUnix >= rmv.momentum.TimestampUnix"] ∧
+    Gen.MV_ret_timestamp = ["ErrMTimestampMissing", "ErrMTimestampInTheFuture", "InternalError",
+      "ErrMTimestampNotIncreasing", "nil"] ∧
+    Gen.MV_if_previous = ["rmv.momentum.Height == 1", "rmv.momentum.PreviousHash.IsZero()", "err != nil",
+      "rmv.momentum.Previous() != previous.Identifier()"] ∧
+    Gen.MV_ret_previous = ["ErrMNotGenesis", "ErrMPrevHashMissing", "InternalError", "ErrMPreviousMissing", "nil"] ∧
+    Gen.MV_if_data = ["len(rmv.momentum.Data) != 0"] ∧
+    Gen.MV_ret_data = ["ErrMDataMustBeZero", "nil"] ∧
+    Gen.MV_if_content = ["len(rmv.momentum.Content) > chain.MaxAccountBlocksInMomentum",
+      "len(blocksLookup) != len(rmv.momentum.Content)", "!ok", "err != nil", "pastFrontier == nil",
+      "isBatched(block)", "!ok", "block.Previous() != previous"] ∧
+    Gen.MV_ret_content = ["ErrMContentTooBig", "Errorf", "InternalError", "Errorf", "Errorf", "nil"] ∧
+    Gen.MV_if_changesHash = ["computedHash != transaction.Momentum.ChangesHash"] ∧
+    Gen.MV_ret_changesHash = ["ErrMChangesHashInvalid", "nil"] ∧
+    Gen.MV_if_hash = ["computedHash != momentum.Hash"] ∧
+    Gen.MV_ret_hash = ["ErrMHashInvalid", "nil"] ∧
+    Gen.MV_if_signature = ["len(momentum.Signature) == 0", "len(momentum.PublicKey) == 0", "err != nil", "!isVerified"] ∧
+    Gen.MV_ret_signature = ["ErrMSignatureMissing", "ErrMPublicKeyMissing", "InternalError", "ErrMSignatureInvalid", "nil"] ∧
+    Gen.MV_if_producer = ["err != nil", "!result"] ∧
+    Gen.MV_ret_producer = ["InternalError", "ErrMProducerInvalid", "nil"] := by decide
+
+/-- the producer lookup compares the slot start with the timestamp for EQUALITY, guards instants before genesis,
+    and the election code has the shape the model follows (AST) -/
+theorem consensus_code_shape :
+    Gen.CS_if_GetMomentumProducer = ["err != nil", "plan.StartTime == timestamp"] ∧
+    Gen.CS_calls_GetMomentumProducer = ["ElectionByTime", "Errorf"] ∧
+    Gen.CS_if_VerifyMomentumProducer = ["err != nil", "momentum.Producer() == *expected"] ∧
+    Gen.EL_if_ElectionByTime = ["t.Before(em.GenesisTime)"] ∧
+    Gen.EL_if_generateProducers = ["len(producerAddresses) != int(info.NodeCount)"] ∧
+    Gen.EL_if_genProofTime = ["tick < 2"] ∧
+    Gen.EA_ret_findSeed = ["int64(context.hashH.Height)"] ∧
+    Gen.EA_calls_SelectProducers = ["filterByWeight", "filterRandom", "shuffleOrder"] ∧
+    Gen.EA_if_filterByWeight = ["len(context.delegations) <= int(ea.group.NodeCount)"] ∧
+    Gen.EA_if_filterRandom = ["total != len(groupA)"] ∧
+    Gen.EA_ret_filterRandom = ["result[:total]", "result"] ∧
+    Gen.PD_Less_if = ["r == 0"] ∧ Gen.PD_Less_ret = ["a[i].Name < a[j].Name", "r < 0"] ∧
+    Gen.RandCount ≤ Gen.NodeCount ∧ 0 < Gen.NodeCount ∧ 0 < Gen.BlockTime ∧ Gen.MomentumFutureSeconds = 10 := by decide
+
+/-- T6 `momentum_verify_sound`: a momentum accepted by `ApplyMomentum` (cache consistent with the hashed
+    timestamp, as `EnsureCache` makes it) has a valid chain id and version, names as previous exactly the
+    frontier of a store the node holds (hash and height), has a strictly later timestamp that is at most
+    `MomentumFutureSeconds` ahead of the clock, carries no data, lists at most 100 blocks all of which were
+    prefetched, its changes hash is the hash of the state changes, its hash is the hash of its content, the
+    signature over the hash verifies, and the signer is the pillar `GetMomentumProducer` returns for the timestamp. -/
+theorem momentum_verify_sound (s : VState) (now : Int) (m : Momentum) (blocks : List PBlock) (o : Oracle)
+    (hcache : m.tsCache = nsPerSec * m.tsUnix)
+    (h : verifyMomentum s now m blocks o = .ok ()) :
+    ∃ v, s.storeAt m.prevHash (prevHeight m) = some v ∧ m.height ≠ 1 ∧
+      m.chainId ≠ 0 ∧ m.chainId = v.chainId ∧ m.version = 1 ∧
+      m.prevHash = v.fHash ∧ prevHeight m = v.fHeight ∧
+      v.fTs < m.tsUnix ∧ nsPerSec * (m.tsUnix : Int) ≤ now + nsPerSec * Gen.MomentumFutureSeconds ∧
+      m.dataLen = 0 ∧
+      m.content.length ≤ Gen.MaxAccountBlocksInMomentum ∧
+      (∀ hd ∈ m.content, ∃ b ∈ blocks, b.hash = hd.hash ∧ b.height = hd.height) ∧
+      o.patchHash = m.changesHash ∧ o.computedHash = m.hash ∧ o.sigOk = true ∧
+      s.expected (nsPerSec * m.tsUnix) = .ok o.producer := by
+  unfold verifyMomentum at h
+  split at h
+  · cases h
+  · rename_i v hctx
+    obtain ⟨c1, _, c3⟩ := getContext_ok hctx
+    split at h
+    · cases h
+    · rename_i hraw
+      split at h
+      · cases h
+      · rw [(verifier_check_order).2.1] at hraw
+        rw [(verifier_check_order).2.2.2.1] at h
+        obtain ⟨r1, hraw⟩ := runAll_cons_ok hraw
+        obtain ⟨r2, hraw⟩ := runAll_cons_ok hraw
+        obtain ⟨r3, hraw⟩ := runAll_cons_ok hraw
+        obtain ⟨r4, hraw⟩ := runAll_cons_ok hraw
+        obtain ⟨r5, hraw⟩ := runAll_cons_ok hraw
+        obtain ⟨r6, _⟩ := runAll_cons_ok hraw
+        obtain ⟨t1, h⟩ := runAll_cons_ok h
+        obtain ⟨t2, h⟩ := runAll_cons_ok h
+        obtain ⟨t3, h⟩ := runAll_cons_ok h
+        obtain ⟨t4, _⟩ := runAll_cons_ok h
+        simp only [rawCheck] at r1 r2 r3 r4 r5 r6
+        simp only [txCheck] at t1 t2 t3 t4
+        have a1 := chkChainIdentifier_ok r1
+        have a2 := chkVersion_ok r2
+        have a3 := chkTimestamp_ok r3
+        have a4 := chkPrevious_ok r4
+        have a5 := chkData_ok r5
+        have a6 := chkContent_ok r6
+        have b1 := chkChangesHash_ok t1
+        have b2 := chkHash_ok t2
+        have b3 := chkSignature_ok t3
+        have b4 := chkProducer_ok t4
+        rw [hcache] at a3 b4
+        exact ⟨v, c3, c1, a1.1, a1.2, a2, a4.1, a4.2, a3.2.2, a3.2.1, a5, a6.1, a6.2.2, b1, b2, b3.2.2, b4⟩
+
+/-- T6 + c: with `GetMomentumProducer` as modelled, an accepted momentum is signed by the i-th elected pillar of
+    its tick and its timestamp is exactly the start of slot i. -/
+theorem accepted_momentum_from_elected_pillar (c : Ctx) (elected : Nat → Option (List Bytes))
+    (storeAt : Bytes → Nat → Option StoreView) (now : Int) (m : Momentum) (blocks : List PBlock) (o : Oracle)
+    (hcache : m.tsCache = nsPerSec * m.tsUnix)
+    (h : verifyMomentum ⟨storeAt, getMomentumProducer c elected⟩ now m blocks o = .ok ()) :
+    o.sigOk = true ∧ ∃ (tick : Nat) (addrs : List Bytes) (i : Nat),
+      c.ticker.toTick (nsPerSec * m.tsUnix) = some tick ∧ elected tick = some addrs ∧
+      addrs.length = c.nodeCount ∧ addrs[i]? = some o.producer ∧
+      nsPerSec * (m.tsUnix : Int) = (c.ticker.toTime tick).1 + wrap64 (c.blockTime * nsPerSec) * (i : Int) := by
+  obtain ⟨v, hv⟩ := momentum_verify_sound _ now m blocks o hcache h
+  have hp := hv.2.2.2.2.2.2.2.2.2.2.2.2.2.2.2
+  have hs := hv.2.2.2.2.2.2.2.2.2.2.2.2.2.2.1
+  exact ⟨hs, (producer_sound c elected _ _ hp).2⟩
+
+/-- negative witness for the cache hypothesis: a (locally built) momentum whose `Timestamp` cache differs from the
+    hashed `TimestampUnix` is judged on the cache for clock and producer — deserialised momentums are always
+    consistent (`EnsureCache`). -/
+theorem verify_uses_timestamp_cache :
+    chkTimestamp ⟨1, [1], 5, 100, fun _ => none⟩ (1000 * nsPerSec)
+      ⟨1, 1, 6, 999999, 110 * nsPerSec, [], [1], [], 0, [], 32, 64⟩ = .ok () := by decide
+
+/-- the verifier's decision is satisfiable: a well-formed momentum on a one-momentum store is accepted -/
+example : verifyMomentum
+    ⟨fun h n => if h = [1] ∧ n = 5 then some ⟨1, [1], 5, 100, fun _ => none⟩ else none, fun _ => .ok [7]⟩
+    (1000 * nsPerSec) ⟨1, 1, 6, 110, 110 * nsPerSec, [2], [1], [3], 0, [], 32, 64⟩ []
+    ⟨[2], true, [3], false, true, [7]⟩ = .ok () := by decide
+
 end ZV.C05
